@@ -206,12 +206,14 @@ theorem pullPackResp_error {s : Server} {f : Flight} {e : ErrKind} (h : pullPack
   · next e' he' =>
     unfold preparePackCore at he'
     split at he'
-    · simp at he'
+    · next hsw => simp only [Bool.and_eq_true] at hsw; exact Or.inl hsw.2
     · split at he'
-      · next hep => exact Or.inl hep
+      · simp at he'
       · split at he'
-        · next hlt => exact Or.inr hlt
-        · split at he' <;> simp at he'
+        · next hep => exact Or.inl hep
+        · split at he'
+          · next hlt => exact Or.inr hlt
+          · split at he' <;> simp at he'
 
 theorem assignSeqs_nil_cp (gen : Nat) (head : Int) (cp : Checkpoint) : (assignSeqs gen head cp []).2.2 = cp := rfl
 
